@@ -93,6 +93,8 @@ def h_jws(ctx):
     # a caller that configures a registry may also pass its allow-list as algorithms= (the registry still decides header validation)
     also_algs = (extra is not None or not strict) and ctx.choose("registry_given", ["registry=", "registry= and algorithms="]) != "registry="
     json_path = path in ("flattened", "general", "7797-flattened")
+    # in the general serialization the header under test belongs to the only signature, or to one of two (the other one plain and valid)
+    entry = ctx.choose("entry_under_test", ["the only one", "the second of two", "the first of two"]) if path == "general" else "the only one"
     prot = {"alg": alg, "typ": "JOSE"}
     unprot = {} if json_path else None
     if path.startswith("7797"):
@@ -105,6 +107,7 @@ def h_jws(ctx):
             prot.pop(n)
     positions = ["protected"] + (["unprotected"] if json_path else [])
     desc = "base"
+    base_prot = copy.deepcopy(prot)      # the other signature of a two-signature message carries the unedited header
     if ctx.deviate("mutated", [False, True]):
         desc = mutate(ctx, prot, unprot, None, positions, NAMES)
         if config.thorough() and ctx.deviate("mutated2", [False, True]):
@@ -130,7 +133,8 @@ def h_jws(ctx):
         elif path == "flattened":
             r = call(jws.serialize_json, member, payload, key, **kw)
         elif path == "general":
-            r = call(jws.serialize_json, [member], payload, key, **kw)
+            plain = {"protected": copy.deepcopy(base_prot)}
+            r = call(jws.serialize_json, [member] if entry == "the only one" else ([plain, member] if entry == "the second of two" else [member, plain]), payload, key, **kw)
         else:
             r = call(rfc7797.serialize_json, member, payload, key, **kw)
     else:
@@ -138,6 +142,9 @@ def h_jws(ctx):
         use_b64 = not (seven and prot.get("b64") is False)
         tok = c16.build_jws(alg, kind, path if not use_b64 or not seven else {"7797-compact": "compact", "7797-flattened": "flattened"}[path],
                             prot if prot else None, unprot or None, payload)
+        if entry != "the only one":
+            plain = c16.build_jws(alg, kind, "general", copy.deepcopy(base_prot), None, payload)["signatures"]
+            tok["signatures"] = plain + tok["signatures"] if entry == "the second of two" else tok["signatures"] + plain
         if path in ("compact", "general", "flattened"):
             eps = c16.jws_entries(path)[:1]
         elif path == "7797-compact":
@@ -158,7 +165,7 @@ def h_jws(ctx):
     extra_t = {n: (TMAP[t], req) for n, (t, req) in (extra or {}).items()}
     reasons = RH.invalid_reasons(merged, "jws", direction == "consume", strict, extra_t, b64_aware)
     vs = []
-    what = f"{direction} {path} strict={strict} registered={extra}{' (registry= and algorithms=)' if also_algs else ''}: {desc}: header {merged!r}"
+    what = f"{direction} {path}{'' if entry == 'the only one' else ' (' + entry + ' signatures)'} strict={strict} registered={extra}{' (registry= and algorithms=)' if also_algs else ''}: {desc}: header {merged!r}"
     if r.ok and reasons:
         vs.append(viol(f"JWS {direction} accepts an invalid header [{reasons[0].split(' has ')[0] if ' has ' in reasons[0] else reasons[0]}] ({'7797' if seven else 'jws'} {'JSON' if json_path else 'compact'})",
                        f"{what}: {reasons}"))
@@ -166,7 +173,7 @@ def h_jws(ctx):
         vs.append(viol(f"JWS {direction} rejects a valid header carrying a caller-registered parameter" if extra else f"JWS {direction} rejects the valid base header",
                        f"{what}: {r.exc!r}"))
     return Outcome(f"{direction}:{'accepted' if r.ok else 'rejected'}:{'valid' if not reasons else 'invalid'}", vs,
-                   nontrivial=(direction, path, strict, repr(extra), repr(merged), also_algs))
+                   nontrivial=(direction, path, strict, repr(extra), repr(merged), also_algs, entry))
 
 
 JWE_SEEDS = [("dir", "oct16", "A128GCM"), ("A128KW", "oct16", "A128CBC-HS256"), ("ECDH-ES", "P-256", "A128GCM"), ("ECDH-ES+A128KW", "X25519", "A128GCM"),
